@@ -69,6 +69,7 @@ type Frame struct {
 	preSt   *State
 	rangeOf map[*ssa.Range]ssa.Value
 	deferArgs map[*ssa.Defer][]Val
+	parked  []parkedReturn
 }
 
 func isBackEdge(from, to *ssa.BasicBlock) bool { return to.Dominates(from) }
@@ -477,6 +478,60 @@ func (f *Frame) run(st *State, guard Term) {
 	f.entrySt = st
 	for _, b := range f.order {
 		f.execBlock(b, st, guard, nil)
+	}
+	f.finishDefers()
+}
+
+type parkedReturn struct {
+	b     *ssa.BasicBlock
+	at    *ssa.RunDefers
+	st    *State
+	guard Term
+}
+
+// finishDefers runs the deferred calls once, on the merge of all paths that
+// reached a `rundefers`, and then completes every parked return block.
+func (f *Frame) finishDefers() {
+	if len(f.parked) == 0 {
+		return
+	}
+	vc := f.vc
+	parked := f.parked
+	f.parked = nil
+	var es []inEdge
+	gs := make([]Term, len(parked))
+	for i, p := range parked {
+		es = append(es, inEdge{guard: p.guard, st: p.st})
+		gs[i] = p.guard
+	}
+	st := vc.mergeStates(es)
+	var g Term
+	if len(gs) == 1 {
+		g = gs[0]
+	} else {
+		g = vc.freshBool("g.defers")
+		vc.assumeRaw(Eq(g, Or(gs...)))
+	}
+	o := &blockOut{st: st, guard: g}
+	f.runDefers(parked[0].b, parked[0].at, o)
+	for _, p := range parked {
+		// continue the block after its rundefers, in the state left by the deferred calls
+		po := &blockOut{st: o.st.clone(), guard: And(p.guard, o.guard)}
+		f.out[p.b] = po
+		f.entrySt = po.st
+		after := false
+		for _, in := range p.b.Instrs {
+			if in == ssa.Instruction(p.at) {
+				after = true
+				continue
+			}
+			if !after {
+				continue
+			}
+			if done := f.execInstr(p.b, in, po); done {
+				break
+			}
+		}
 	}
 }
 
